@@ -752,7 +752,7 @@ func (c *Conn) writev(in [][]byte) (int, error) {
 		n := nwrite
 		onWrittenSize := c.p.g.onWrittenSize
 		if n < size {
-			for i := 0; i < len(in) && n > 0; i++ {
+			for i := 0; i < len(in); i++ {
 				b := in[i]
 				if n == 0 {
 					c.newToWriteBuf(b)
@@ -773,6 +773,8 @@ func (c *Conn) writev(in [][]byte) (int, error) {
 					}
 				}
 			}
+			// the rest is cached: the whole input has been accepted.
+			nwrite = size
 		}
 	} else {
 		nwrite = 0
